@@ -18,8 +18,10 @@ package prompt
 
 import (
 	"context"
+	"runtime/debug"
 
 	"github.com/cloudwego/eino/callbacks"
+	"github.com/cloudwego/eino/internal/safe"
 	"github.com/cloudwego/eino/schema"
 )
 
@@ -49,7 +51,16 @@ func FromMessages(formatType schema.FormatType, templates ...schema.MessagesTemp
 func (t *DefaultChatTemplate) Format(ctx context.Context,
 	vs map[string]any, _ ...Option) (result []*schema.Message, err error) {
 
+	// the graph does not wrap a component that fires its own callbacks: a unit that has started is ended here, also
+	// when a template panics (reported as the unit's error before the panic travels on to whoever recovers it)
+	formatting := false
 	defer func() {
+		if formatting {
+			if panicInfo := recover(); panicInfo != nil {
+				_ = callbacks.OnError(ctx, safe.NewPanicErr(panicInfo, debug.Stack()))
+				panic(panicInfo)
+			}
+		}
 		if err != nil {
 			_ = callbacks.OnError(ctx, err)
 		}
@@ -60,6 +71,7 @@ func (t *DefaultChatTemplate) Format(ctx context.Context,
 		Templates: t.templates,
 	})
 
+	formatting = true
 	result = make([]*schema.Message, 0, len(t.templates))
 	for _, template := range t.templates {
 		msgs, err := template.Format(ctx, vs, t.formatType)
@@ -69,6 +81,7 @@ func (t *DefaultChatTemplate) Format(ctx context.Context,
 
 		result = append(result, msgs...)
 	}
+	formatting = false
 
 	_ = callbacks.OnEnd(ctx, &CallbackOutput{
 		Result:    result,
